@@ -34,7 +34,8 @@ def c41_runs(tier):
     sba(dict(sz=256, warm=3, t1='a', t2='a'), 1 if q else 2, budget=120)
     sba(dict(sz=256, t0='a', t1='a', t2='b'), 1 if q else 2, budget=120)
     sba(dict(sz=256, t0='sjAAAA', h='a'), 1)
-    sba(dict(sz=256, t0='sAAAA', h='a', t1='a'), 1)
+    if not q:
+        sba(dict(sz=256, t0='sAAA', h='a', t1='a'), 1, budget=240)
     # other block sizes (bigger slabs = longer executions) and the alignedMalloc path
     sba(dict(sz=64, t0='ab', t1='ba'), 1 if q else 2, budget=90)
     sba(dict(sz=64, warm=2, t0='d', t1='a'), 1)
@@ -55,16 +56,17 @@ def c41_runs(tier):
         sba(dict(sz=256, t0='sa', h='ad'), 1, mode='tsan', budget=120)
         sba(dict(sz=256, t0='a', t1='a'), 1, mode='asan', budget=120)
         sba(dict(sz=256, t0='sa', h='ad'), 1, mode='asan', budget=120)
+    runs.sort(key=lambda r: r.mode == 'plain')  # sanitizer legs first: they must not fall off the end of the tier budget
     return runs
 
 
 reg('C41', level='model_checking', runs=c41_runs, quick_budget_s=300, thorough_budget_s=1800,
     technique='stateless model checking of the real SmallBufferAllocator (thread-local caches, moodycamel central store, backing-store spin lock) with an ownership map; TSan and ASan legs; spurious weak-CAS failures',
-    level_text='1-3 threads (plus helper threads that exit) running histories of <=3 operations over {alloc, dealloc own, hand a block to another thread which deallocates it, approxBytesAllocatedSmallBuffer, thread exit returning the cache}, block sizes 8/64/256 (512 = alignedMalloc path), on a cold allocator and on three warmed states (central store filled; cache one short of the recycle threshold; central store drained); every interleaving with <=2 deviations for two threads at size 256 (<=1 for three threads and the bigger sizes in quick). Oracle: address map of live blocks (no block handed out twice, no overlap, alignment = size, block inside a backing-store slab, contents of a live block untouched), occupancy of the backing-store critical section (a slab creation and an approxBytes call never overlap), lock word free at quiescence; the same shapes under ThreadSanitizer must be race free.',
+    level_text='1-3 threads (plus helper threads that exit) running histories of <=3 operations over {alloc, dealloc own, hand a block to another thread which deallocates it, approxBytesAllocatedSmallBuffer, thread exit returning the cache}, block sizes 8/64/256 (512 = alignedMalloc path), on a cold allocator and on three warmed states (central store filled; cache one short of the recycle threshold; central store drained); every interleaving with <=2 deviations for two threads at size 256 (<=1 for three threads and the bigger sizes in quick). Oracle: address map of live blocks (no block handed out twice, no overlap, alignment = size, block inside a backing-store slab, contents of a live block untouched), occupancy of the backing-store critical section (a slab creation and an approxBytes call never overlap), lock word free at quiescence, and a final drain by T0 of every block the allocator owns (a block sitting twice in the caches or the central store is handed out twice there); the same shapes under ThreadSanitizer must be race free.',
     level_note='SC interleavings; weak-CAS spurious failures explored (casfail=2); TSan legs on five shapes, ASan legs on three. The allocator globals are rebuilt before every execution (cold start), warm paths are reached by a single-threaded prefix inside the body.',
     design_ref='DESIGN.md section 4, C41', assumptions=MC_ASSUME, rule=RULE,
     guards=[need_cover('sba_create_slab', 'sba_central_dequeue', 'sba_tl_pop', 'sba_foreign_dealloc', 'sba_recycle', 'sba_exit_with_cache',
-                       'sba_bytes', 'sba_helper', 'sba_partial_dequeue'), need_outcomes(20)])
+                       'sba_bytes', 'sba_helper', 'sba_partial_dequeue', 'sba_drain_exact'), need_outcomes(20)])
 
 
 # ---------------------------------------------------------------------------------------------- C42
@@ -83,18 +85,20 @@ def c42_runs(tier):
         three = 'a|ad|aad|ada' if q else allp
         runs.append(McRun(B, 'pool', dict(cs=cs, ss=ss, t0=three, t1=three, t2=three, sym=1), bound=2 if q else 3, budget=60 if q else 300))
         runs.append(McRun(B, 'nolock', dict(cs=cs, ss=ss, depth=5 if q else 6), bound=0, budget=60))
-    runs.append(McRun(B, 'pool', dict(cs=8, ss=16, t0='aad', t1='ada'), bound=2, mode='tsan', budget=60))
+    tp = 'a|ad|ada' if q else allp
+    runs.append(McRun(B, 'pool', dict(cs=8, ss=16, t0=tp, t1=tp), bound=2, mode='tsan', budget=90 if q else 300))
     runs.append(McRun(B, 'pool', dict(cs=16, ss=64, t0='aaD', t1='ada', t2='ad'), bound=1, mode='tsan', budget=60))
     runs.append(McRun(B, 'pool', dict(cs=8, ss=16, t0='aaD', t1='ada', t2='ad'), bound=1, mode='asan', budget=60))
     runs.append(McRun(B, 'nolock', dict(cs=8, ss=16, depth=4 if q else 5), bound=0, mode='asan', budget=120))
     runs.append(McRun(B, 'nolock', dict(cs=16, ss=64, depth=4 if q else 5), bound=0, mode='asan', budget=120))
+    runs.sort(key=lambda r: r.mode == 'plain')
     return runs
 
 
 reg('C42', level='model_checking', runs=c42_runs, quick_budget_s=300, thorough_budget_s=1500,
     technique='stateless model checking of the real PoolAllocator (spin lock, slab carving) with logging allocFunc/deallocFunc and a chunk ownership map; exhaustive serial histories of NoLockPoolAllocator via mc::choose',
     level_text='PoolAllocator: 2 threads x every pair and 3 threads x every multiset (quick: six) of the seven non-trivial programs of <=3 operations over {alloc, dealloc newest, dealloc oldest}, chunk/slab sizes (8,8), (8,16), (16,64), every interleaving with <=3 deviations for two threads (4 thorough) and <=2 for three (3 thorough). NoLockPoolAllocator: every serial history of depth 5 (6 thorough) over {alloc, dealloc newest, dealloc oldest, clear, alloc one slab worth}. Oracle: every chunk lies in a live slab obtained from allocFunc, is disjoint from every live chunk and is not handed out again before its dealloc; contents of live chunks untouched; after clear() allocFunc is not called until every recycled slab has been reused; totalChunkCapacity(); deallocFunc exactly once per slab and only during destruction.',
-    level_note='SC interleavings; TSan legs on two shapes, ASan legs on one concurrent shape and the serial enumeration at depth 4 (5 thorough).',
+    level_note='SC interleavings. The critical sections of PoolAllocator contain no scheduling point, so a locking error does not change any outcome of the serialised plain runs; it is the TSan legs (every pair of programs at (8,16) with <=2 deviations, quick: of three programs; one three-thread shape) that would report it. ASan legs on one concurrent shape and the serial enumeration at depth 4 (5 thorough).',
     design_ref='DESIGN.md section 4, C42', assumptions=MC_ASSUME, rule=RULE,
     guards=[need_cover('pool_alloc', 'pool_dealloc', 'pool_allocfunc', 'nolock_alloc', 'nolock_dealloc', 'nolock_clear', 'nolock_clear_multi_slab'), need_outcomes(1000)])
 
@@ -124,6 +128,7 @@ def c37_runs(tier):
         runs.append(McRun(B, 'arena', p, bound=2, budget=90 if q else 200))
     runs.append(McRun(B, 'arena', dict(bs=1, pre=1, g0=2, g1=3, rd=1), bound=1 if q else 2, mode='tsan', budget=90))
     runs.append(McRun(B, 'arena', dict(bs=2, pre=1, g0=3, g1=2, rd=1), bound=1 if q else 2, mode='asan', budget=90))
+    runs.sort(key=lambda r: r.mode == 'plain')
     return runs
 
 
@@ -145,41 +150,46 @@ def c33_runs(tier):
     B = 'c33_containers'
     q = tier == 'quick'
     allops = '|'.join(CV_OPS)
+    inits = '0|1|2|3|4|5'  # where the growth starts relative to the bucket boundaries (first bucket: 1 or 2 elements)
 
-    def cv(params, bound=2, mode='plain', budget=60):
+    def cv(params, bound=2, mode='plain', budget=90):
         runs.append(McRun(B, 'cvec', params, bound=bound, mode=mode, budget=budget))
     for cap in (2, 4):
         for strat in (0, 1, 2):
             base = dict(cap=cap, strat=strat)
             if q:
-                # every operation against grow_by(3, v) and emplace_back, one element published, reader looks once
-                cv(dict(base, init=1, t0='g3|e', t1=allops, rd=1 if cap == 2 else 0, rr=1), budget=90)
+                # every operation against grow_by(3, v) and emplace_back, from every initial size
+                cv(dict(base, init=inits, t0='g3|e', t1=allops))
+                if cap == 2:
+                    cv(dict(base, init='1|3', t0='g3|e', t1='e|g3|n3|m4', rd=1, rr=1))
+                cv(dict(base, init='1|2|4', inl=0, fast=0, t0='g3|G2|p', t1='e|n3|P|m4'))
+                cv(dict(base, init='0|3', t0='g3', t1='e', t2='p'))
+                cv(dict(base, init=inits, t0='g3|e', t1='eg2|pe|g2e'))
             else:
-                for init in (0, 1, 3):
-                    cv(dict(base, init=init, t0=allops, t1=allops, sym=1, rd=1 if init else 0), budget=400)
-            # buffer pointers on the heap / compact iterators
-            for inl, fast in ((0, 1), (1, 0), (0, 0)):
-                cv(dict(base, init=1, inl=inl, fast=fast, t0='g3|G2|p', t1='e|n3|P|m4' if q else allops, rd=0 if q else 1), budget=90 if q else 300)
-            # three growers, two operations per grower
-            three = [dict(t0='g3', t1='e', t2='p'), dict(t0='g2', t1='n3', t2='G2')]
-            if not q:
-                three += [dict(t0='e', t1='e', t2='e'), dict(t0='g5', t1='m4', t2='P'), dict(t0='i3', t1='l', t2='M3')]
-            for p in three:
-                cv(dict(base, init=1, **p), budget=90)
-            cv(dict(base, init=0, t0='pg2', t1='eG3'), budget=90)
-            if not q:
-                cv(dict(base, init=2, t0='g3e', t1='n2p', rd=1), budget=200)
-                cv(dict(base, init=1, t0='eee', t1='g2g2'), budget=200)
-    cv(dict(cap=2, strat=2, init=1, t0='g3', t1='e', rd=1), mode='tsan', budget=90)
-    cv(dict(cap=2, strat=0, init=1, t0='G2', t1='n3', rd=1), mode='tsan', budget=90)
-    cv(dict(cap=2, strat=2, init=1, t0='g3', t1='e', rd=1), mode='asan', budget=90)
-    cv(dict(cap=4, strat=1, init=1, t0='i3', t1='m4', inl=0, rd=1), mode='asan', budget=90)
+                cv(dict(base, init=inits, t0=allops, t1=allops, sym=1), budget=400)
+                cv(dict(base, init='1|2|3', t0='g3|e|G2|m4', t1=allops, rd=1, rr=2), budget=400)
+                for inl, fast in ((0, 1), (1, 0), (0, 0)):
+                    cv(dict(base, init=inits, inl=inl, fast=fast, t0='g3|G2|p', t1=allops), budget=300)
+                for p3 in (dict(t0='g3', t1='e', t2='p'), dict(t0='g2', t1='n3', t2='G2'), dict(t0='e', t1='e', t2='e'), dict(t0='g5', t1='m4', t2='P'),
+                           dict(t0='i3', t1='l', t2='M3')):
+                    cv(dict(base, init='0|1|3|4', **p3), budget=200)
+                cv(dict(base, init=inits, t0='g3e|eg2|pp', t1='eg2|pe|g2e|n2p'), budget=300)
+                cv(dict(base, init='1|2', t0='eee', t1='g2g2', rd=1, rr=1), budget=200)
+    sb = 1 if q else 2
+    cv(dict(cap=2, strat=2, init='1|4', t0='g3', t1='e', rd=1, rr=1), bound=sb, mode='tsan', budget=120)
+    cv(dict(cap=2, strat=0, init=1, t0='G2', t1='n3', rd=1, rr=1), bound=sb, mode='tsan', budget=120)
+    cv(dict(cap=2, strat=2, init='3|4', t0='g3', t1='e|p'), bound=sb, mode='asan', budget=120)
+    cv(dict(cap=4, strat=1, init='1|2', t0='i3', t1='m4', inl=0, rd=1, rr=1), bound=sb, mode='asan', budget=120)
+    if q:
+        cv(dict(cap=2, strat=2, init='1|2|4', inl=0, fast=1, t0='g3|G2|p', t1='e|n3|P|m4'))
+        cv(dict(cap=2, strat=2, init='1|2|4', inl=1, fast=0, t0='g3|G2|p', t1='e|n3|P|m4'))
+    runs.sort(key=lambda r: r.mode == 'plain')
     return runs
 
 
-reg('C33', level='model_checking', runs=c33_runs, quick_budget_s=300, thorough_budget_s=1800,
+reg('C33', level='model_checking', runs=c33_runs, quick_budget_s=360, thorough_budget_s=1800,
     technique='stateless model checking of the real ConcurrentVector growth paths (index reservation, single and range bucket allocation, the unsynchronised buffer-assignment step, the bare spin on a missing bucket) with a lifetime-tracked element type',
-    level_text='kDefaultCapacity 2 and 4 (first bucket 1 or 2 elements, so every growth amount used crosses bucket boundaries) x all three realloc strategies x inline/heap buffer pointers x fast/compact iterators; 2 growers x pairs of {push_back(const&), push_back(&&), emplace_back, grow_by(k,value), grow_by(k), grow_by_generator, grow_by(range), grow_by(init-list), grow_to_at_least(n,value), grow_to_at_least(n)} (quick: every operation against grow_by(3,v) and emplace_back; thorough: all pairs, from initial sizes 0, 1 and 3), 3 growers, two-operation programs; a reader thread holding a reference, a pointer and an iterator to element 0 and re-reading every element published before the growers started; every interleaving with <=2 deviations. Oracle: returned iterators/ranges inside [0,size()), pairwise disjoint, every element of a returned range holds its writer\'s value at return and at the end, final size == total growth, every slot constructed exactly once and destroyed exactly once (lifetime registry), element 0 at the same address with the same value.',
+    level_text='kDefaultCapacity 2 and 4 (first bucket 1 or 2 elements, so every growth amount used crosses bucket boundaries) x all three realloc strategies x inline/heap buffer pointers x fast/compact iterators; 2 growers x pairs of {push_back(const&), push_back(&&), emplace_back, grow_by(k,value), grow_by(k), grow_by_generator, grow_by(range), grow_by(init-list), grow_to_at_least(n,value), grow_to_at_least(n)} (quick: every operation against grow_by(3,v) and emplace_back; thorough: all pairs), each from every initial size 0..5 so that the growth starts at every offset relative to the bucket boundaries, 3 growers, two-operation programs; a reader thread holding a reference, a pointer and an iterator to element 0 and re-reading every element published before the growers started; every interleaving with <=2 deviations. Oracle: returned iterators/ranges inside [0,size()), pairwise disjoint, every element of a returned range holds its writer\'s value at return and at the end, final size == total growth, every slot constructed exactly once and destroyed exactly once (lifetime registry), element 0 at the same address with the same value.',
     level_note='SC interleavings; TSan legs on two shapes, ASan legs on two shapes.',
     design_ref='DESIGN.md section 4, C33', assumptions=MC_ASSUME, rule=RULE,
     guards=[need_cover('cvec_bucket_allocated', 'cvec_two_buckets_allocated', 'cvec_range_spans_buckets', 'cvec_range_spans_3_buckets', 'cvec_reader',
